@@ -388,6 +388,9 @@ Definition analyse (fixed_sz shiftfix : bool) (mode : symm_mode) (spins : list n
 
 End Symm.
 
+Arguments sy_ops {K}. Arguments sy_flags {K}.
+Arguments an_symm {K}. Arguments an_class {K}. Arguments an_cdag {K}. Arguments an_c {K}.
+
 
 (** * Executable instance at exact rationals (PV.PolyQ) *)
 Require Import ZArith QArith.
